@@ -564,6 +564,26 @@ theorem span_resolve_ok_same_freq (s : Span) (c : Ctx) (s' : Span) (h : s.resolv
 
 example : (⟨.res ⟨.Y, 2020⟩, .ctx true 0, 1⟩ : Span).resolve ⟨⟨.H, 4040⟩, ⟨.H, 4051⟩⟩ = .error .mixedFreq := by decide
 
+/-- **Span equality.** Two resolved spans of one frequency are equal iff start, end and step coincide; spans of different
+frequencies are never silently compared: `==` (and hence `!=`) raises the mixed-frequency error, whatever their steps. -/
+theorem span_eq_spec (p p' q q' : Period) (st st' : Int) :
+    (p.freq = q.freq → p'.freq = q'.freq →
+      (⟨.res p, .res p', st⟩ : Span).eq ⟨.res q, .res q', st'⟩ = .ok (decide (p = q ∧ p' = q' ∧ st = st'))) ∧
+    (p.freq ≠ q.freq → (⟨.res p, .res p', st⟩ : Span).eq ⟨.res q, .res q', st'⟩ = .error .mixedFreq) := by
+  obtain ⟨pf, ps⟩ := p; obtain ⟨pf', ps'⟩ := p'; obtain ⟨qf, qs⟩ := q; obtain ⟨qf', qs'⟩ := q'
+  constructor
+  · intro h h'
+    simp only at h h'
+    subst h h'
+    by_cases h1 : ps = qs <;> by_cases h2 : ps' = qs' <;> by_cases h3 : st = st' <;>
+      simp [Span.eq, endpointEq, Period.eq, checkPeriods, bind, Except.bind, pure, Except.pure, h1, h2, h3]
+  · intro h
+    simp only at h
+    simp [Span.eq, endpointEq, Period.eq, checkPeriods, bind, Except.bind, h, throw, throwThe, MonadExceptOf.throw]
+
+example : (⟨.res ⟨.Q, 1⟩, .res ⟨.Q, 5⟩, 1⟩ : Span).eq ⟨.res ⟨.M, 1⟩, .res ⟨.M, 5⟩, 3⟩ = .error .mixedFreq := by decide
+example : (⟨.res ⟨.Q, 1⟩, .res ⟨.Q, 5⟩, 1⟩ : Span).eq ⟨.res ⟨.Q, 1⟩, .res ⟨.Q, 5⟩, 2⟩ = .ok false := by decide
+
 /-! ## 6a. Slices of a span -/
 
 /-- every element of a slice is an element of the span at a position selected by the slice; nothing else is returned -/
